@@ -129,6 +129,7 @@ type genCfg struct {
 	wIter, wEmpty    int
 	wChild, wClose   int
 	big              bool
+	maxval           bool // values within a few hundred bytes of the largest size Insert accepts
 }
 
 // GenTree generates a script for the tree world for the given property.
@@ -194,6 +195,12 @@ func GenTree(prop string, r *sim.Rand, tier string) sim.Script {
 	if c.children {
 		c.wChild, c.wClose = 6, 7
 	}
+	if r.Chance(1, 500) {
+		c.maxval = true
+		if c.nOps > 8 {
+			c.nOps = 8
+		}
+	}
 	open := []int{0} // open trie ids
 	parent := map[int]int{0: -1}
 	next := 1
@@ -213,6 +220,10 @@ func GenTree(prop string, r *sim.Rand, tier string) sim.Script {
 		switch k {
 		case 0:
 			n++
+			if c.maxval && r.Chance(1, 3) {
+				s.Ops = append(s.Ops, Op{K: "insmax", T: t, P: p, V: []byte(fmt.Sprintf("V%d", n)), N: int64([]int{r.Intn(12), r.Intn(12), r.Intn(80), r.Intn(700)}[r.Intn(4)])})
+				break
+			}
 			s.Ops = append(s.Ops, Op{K: "ins", T: t, P: p, V: genValue(r, c.valProfile, n)})
 		case 1:
 			s.Ops = append(s.Ops, Op{K: "del", T: t, P: p})
